@@ -471,18 +471,8 @@ int64_t cmi_pool_acquire_inner(struct cmb_resourcepool *rpp,
                 const bool found = cmi_process_remove_holdable(victim, hrp);
                 cmb_assert_debug(found == true);
 
-                /*
-                 * Take it out of whatever it is waiting for right away, so that
-                 * no other wakeup call (e.g., a grant from this very pool that
-                 * is already on its way) reaches it before the bad news. Then
-                 * schedule a wakeup for it, but do not switch context yet. The
-                 * notice goes first in this instant, whatever the priority of
-                 * the victim, or a later interrupt or timer could sweep it away.
-                 */
-                cmi_process_cancel_awaiteds(victim);
-                cmb_process_interrupt(victim, CMB_PROCESS_PREEMPTED, INT64_MAX);
-
-                 /* Split the loot */
+                /* Split the loot. Books first, so that they are in order ... */
+                bool satisfied = false;
                 if (loot < rem_claim) {
                     /* Add everything to our own holding */
                     update_record(rpp, caller, loot);
@@ -507,7 +497,23 @@ int64_t cmi_pool_acquire_inner(struct cmb_resourcepool *rpp,
                     cmb_logger_info(stdout,
                                     "Success, got %" PRIu64 " from %s, put back %" PRIu64,
                                     loot, victim->name, surplus);
+                    satisfied = true;
+                }
 
+                /*
+                 * ... when the victim is taken out of whatever it is waiting
+                 * for (that may ring other guards, whose observers may look at
+                 * this pool), so that no other wakeup call (e.g., a grant from
+                 * this very pool that is already on its way) reaches it before
+                 * the bad news. Then schedule a wakeup for it, but do not switch
+                 * context yet. The notice goes first in this instant, whatever
+                 * the priority of the victim, or a later interrupt or timer
+                 * could sweep it away.
+                 */
+                cmi_process_cancel_awaiteds(victim);
+                cmb_process_interrupt(victim, CMB_PROCESS_PREEMPTED, INT64_MAX);
+
+                if (satisfied) {
                     /* In case someone else can use the leftovers */
                     cmb_resourceguard_signal(&(rpp->guard));
 
